@@ -54,9 +54,37 @@ func loadPkg(root, dir string) *pkg {
 	return p
 }
 
+// extractFail is the panic value of a failed extraction.
+type extractFail string
+
 func fail(format string, args ...any) {
-	fmt.Fprintf(os.Stderr, "go2lean: "+format+"\n", args...)
-	os.Exit(1)
+	panic(extractFail(fmt.Sprintf(format, args...)))
+}
+
+// failures collects the extractions that could not be made; each leaves a placeholder definition
+// of type ExtractionFailed, so that exactly the Tie theorems that use it stop type-checking.
+var failures []string
+
+// guard runs one extraction writing to w. If it fails, what it wrote is discarded and every name it
+// was to define becomes a placeholder.
+func guard(w *strings.Builder, names []string, f func()) {
+	before := w.String()
+	defer func() {
+		if r := recover(); r != nil {
+			ef, ok := r.(extractFail)
+			if !ok {
+				panic(r)
+			}
+			w.Reset()
+			w.WriteString(before)
+			for _, n := range names {
+				fmt.Fprintf(w, "/-- EXTRACTION FAILED: %s -/\ndef %s : Jrpc.GoPrelude.ExtractionFailed := ⟨%s⟩\n\n", strings.ReplaceAll(string(ef), "-/", "- /"), n, leanStr(string(ef)))
+			}
+			failures = append(failures, strings.Join(names, ",")+": "+string(ef))
+			fmt.Fprintf(os.Stderr, "go2lean: extraction of %s failed: %s\n", strings.Join(names, ","), string(ef))
+		}
+	}()
+	f()
 }
 
 func src(n ast.Node) string {
@@ -427,6 +455,30 @@ func (t *tr) stmtsOrFall(block, rest []ast.Stmt, ind string) string {
 	return t.stmts(append(append([]ast.Stmt{}, block...), rest...), ind)
 }
 
+func emit0(fs *strings.Builder, funcs map[string]string, p *pkg, cst *consts, recv, name, lean, sig string, atoms map[string]string) {
+	fd, file := findFunc(p, recv, name)
+	if fd == nil {
+		fail("function %s.%s not found", recv, name)
+	}
+	t := &tr{atoms: atoms, c: cst, funcs: funcs, who: file + ":" + name}
+	body := t.stmts(fd.Body.List, "  ")
+	fmt.Fprintf(fs, "/-- %s: `%s` -/\ndef %s %s :=\n  %s\n\n", file, strings.TrimSpace(recv+" "+name), lean, sig, body)
+	funcs[name] = lean
+}
+
+func emitCond0(fs *strings.Builder, funcs map[string]string, p *pkg, cst *consts, recv, name, lean, sig string, pick func(*ast.FuncDecl) ast.Expr, atoms map[string]string) {
+	fd, file := findFunc(p, recv, name)
+	if fd == nil {
+		fail("function %s.%s not found", recv, name)
+	}
+	e := pick(fd)
+	if e == nil {
+		fail("%s:%s: expected condition not found", file, name)
+	}
+	t := &tr{atoms: atoms, c: cst, funcs: funcs, who: file + ":" + name}
+	fmt.Fprintf(fs, "/-- %s: condition in `%s`: `%s` -/\ndef %s %s :=\n  %s\n\n", file, strings.TrimSpace(recv+" "+name), src(e), lean, sig, t.expr(e))
+}
+
 // paramsTail translates a statement list whose returns are (nil, nil) = omit, (<name>, nil) = keep,
 // (nil, <error>) = refuse.
 func paramsTail(list []ast.Stmt, name string, c *consts, funcs map[string]string, who string) string {
@@ -662,6 +714,15 @@ func main() {
 	repo := flag.String("repo", "/repo", "repository root")
 	out := flag.String("out", "", "output directory for generated Lean files")
 	flag.Parse()
+	defer func() {
+		if r := recover(); r != nil {
+			if ef, ok := r.(extractFail); ok {
+				fmt.Fprintf(os.Stderr, "go2lean: %s\n", string(ef))
+				os.Exit(1)
+			}
+			panic(r)
+		}
+	}()
 	if *out == "" {
 		fail("missing -out")
 	}
@@ -675,7 +736,7 @@ func main() {
 
 	// ---- Consts.lean
 	var cs strings.Builder
-	cs.WriteString("/-! GENERATED by tools/go2lean from the current /repo sources. Do not edit. -/\nnamespace Jrpc.Gen.Consts\n\n")
+	cs.WriteString("import Jrpc.GoPrelude\n/-! GENERATED by tools/go2lean from the current /repo sources. Do not edit. -/\nnamespace Jrpc.Gen.Consts\n\n")
 	for _, n := range []string{"ParseError", "InvalidRequest", "MethodNotFound", "InvalidParams", "InternalError", "NoError", "SystemError", "Cancelled", "DeadlineExceeded"} {
 		v, ok := c.ints[n]
 		if !ok {
@@ -771,7 +832,7 @@ func main() {
 	}
 	cs.WriteString("]\n")
 	// header literals of hdr.Send
-	{
+	guard(&cs, []string{"hdrSendLiterals", "hdrRecvFields"}, func() {
 		fd, _ := findFunc(chanp, "hdr", "Send")
 		if fd == nil {
 			fail("hdr.Send not found")
@@ -802,9 +863,9 @@ func main() {
 			return true
 		})
 		fmt.Fprintf(&cs, "/-- header names matched (after ToLower) by `hdr.Recv` -/\ndef hdrRecvFields : List String := [%s]\n", strings.Join(cases, ", "))
-	}
+	})
 	// reserved prefix in assignLocked
-	{
+	guard(&cs, []string{"reservedPrefix", "builtinNames"}, func() {
 		fd, _ := findFunc(root, "Server", "assignLocked")
 		if fd == nil {
 			fail("Server.assignLocked not found")
@@ -851,7 +912,7 @@ func main() {
 			return true
 		})
 		fmt.Fprintf(&cs, "/-- names answered by a built-in inside the gate -/\ndef builtinNames : List (List UInt8) := [%s]\n", strings.Join(arms, ", "))
-	}
+	})
 	cs.WriteString("\nend Jrpc.Gen.Consts\n")
 	write(*out, "Consts.lean", cs.String())
 
@@ -860,6 +921,9 @@ func main() {
 	fs.WriteString("import Jrpc.Gen.Consts\nimport Jrpc.GoPrelude\n/-! GENERATED by tools/go2lean from the current /repo sources. Do not edit. -/\nnamespace Jrpc.Gen.Funcs\nopen Jrpc.Gen Jrpc.GoPrelude\n\n")
 	funcs := map[string]string{}
 	emit := func(p *pkg, cst *consts, recv, name, lean, sig string, atoms map[string]string) {
+		guard(&fs, []string{lean}, func() { emit0(&fs, funcs, p, cst, recv, name, lean, sig, atoms) })
+	}
+	_ = func(p *pkg, cst *consts, recv, name, lean, sig string, atoms map[string]string) {
 		fd, file := findFunc(p, recv, name)
 		if fd == nil {
 			fail("function %s.%s not found", recv, name)
@@ -894,7 +958,7 @@ func main() {
 			"return nil, true": "(some ConstVal.cnull)", "return nil, false": "none"})
 	// outbound parameter policy: the statements of Client.marshalParams after json.Marshal, and the
 	// same decision inside Server.pushReq
-	{
+	guard(&fs, []string{"marshalParamsTail"}, func() {
 		fd, file := findFunc(root, "Client", "marshalParams")
 		if fd == nil {
 			fail("function Client.marshalParams not found")
@@ -911,8 +975,8 @@ func main() {
 		tail := fd.Body.List[at+2:]
 		fmt.Fprintf(&fs, "/-- %s: `Client.marshalParams` after `json.Marshal` succeeded -/\ndef marshalParamsTail (pbits : List UInt8) (firstByte : List UInt8 → Int) : ParamsDecision :=\n  %s\n\n",
 			file, paramsTail(tail, "pbits", c, funcs, file+":marshalParams"))
-	}
-	{
+	})
+	guard(&fs, []string{"pushParamsTail"}, func() {
 		fd, file := findFunc(root, "Server", "pushReq")
 		if fd == nil {
 			fail("function Server.pushReq not found")
@@ -932,9 +996,12 @@ func main() {
 		tail = append(tail, &ast.ReturnStmt{Results: []ast.Expr{ast.NewIdent("v"), ast.NewIdent("nil")}})
 		fmt.Fprintf(&fs, "/-- %s: `Server.pushReq`, the parameter block after `json.Marshal` succeeded -/\ndef pushParamsTail (v : List UInt8) (firstByte : List UInt8 → Int) : ParamsDecision :=\n  %s\n\n",
 			file, paramsTail(tail, "v", c, funcs, file+":pushReq"))
-	}
+	})
 	// conditions inside larger functions
 	emitCond := func(p *pkg, cst *consts, recv, name, lean, sig string, pick func(*ast.FuncDecl) ast.Expr, atoms map[string]string) {
+		guard(&fs, []string{lean}, func() { emitCond0(&fs, funcs, p, cst, recv, name, lean, sig, pick, atoms) })
+	}
+	_ = func(p *pkg, cst *consts, recv, name, lean, sig string, pick func(*ast.FuncDecl) ast.Expr, atoms map[string]string) {
 		fd, file := findFunc(p, recv, name)
 		if fd == nil {
 			fail("function %s.%s not found", recv, name)
@@ -1304,6 +1371,7 @@ func main() {
 	}
 	ft.WriteString("end Jrpc.Gen.Facts\n")
 	write(*out, "Facts.lean", ft.String())
+	write(*out, "FAILURES.txt", strings.Join(failures, "\n"))
 }
 
 func write(dir, name, content string) {
